@@ -19,7 +19,7 @@ def expected_refusal(beh, x):
     if beh == 'cre1':
         return {'message': 'no'}
     if beh == 'cre2':
-        return {'message': 'no', 'data': {'why': x}}
+        return {'message': 'no', 'data': x}          # the second argument as it is, falsy values included
     return {'message': 'no', 'data': [x, 'two']}
 
 
@@ -37,7 +37,7 @@ def build(t, part, chooser=None, handler_checkpoint=False):
         if beh == 'cre1':
             raise exceptions.ConnectionRefusedError('no')
         if beh == 'cre2':
-            raise exceptions.ConnectionRefusedError('no', {'why': x})
+            raise exceptions.ConnectionRefusedError('no', x)
         if beh == 'cre3':
             raise exceptions.ConnectionRefusedError('no', x, 'two')
         return None
